@@ -183,3 +183,12 @@ Theorem C04_polygon_prisms : forall (n : Z) (r h : R) pts ph, r <> 0%R ->
   (inscribed_polygon n r = Some pts \/ circumscribed_polygon n r = Some pts) -> linear_extrude pts h = Some ph ->
   (forall u v, (mcnt u v (snd ph) <= 1)%nat /\ mcnt u v (snd ph) = mcnt v u (snd ph)) /\ ((0 < h)%R -> (vol6 (fst ph) (snd ph) < 0)%R).
 Proof. exact polygon_prism_unconditional. Qed.
+
+(* ---- the extrusion of every rounded rectangle (0 < r < min(w,h)/2, segments >= 1, centred or not): closed in the exact
+        form and outward, with no hypothesis on the caps (Geom/RR_convex.v: ear clipping completes on it in both orders) ---- *)
+From SCAD Require Import Geom.RR_convex.
+Theorem C04_rounded_rect_prism : forall (w h r : R) (segments : Z) (center : bool) pts (height : R) ph,
+  (0 < r)%R -> (2 * r < w)%R -> (2 * r < h)%R -> (1 <= segments)%Z -> rounded_rect w h r segments center = Some pts ->
+  linear_extrude pts height = Some ph ->
+  (forall u v, (mcnt u v (snd ph) <= 1)%nat /\ mcnt u v (snd ph) = mcnt v u (snd ph)) /\ ((0 < height)%R -> (vol6 (fst ph) (snd ph) < 0)%R).
+Proof. exact rounded_rect_prism_unconditional. Qed.
